@@ -6,13 +6,17 @@ from .. import rules_text as RT
 LEVEL = "other"
 
 EXPLANATION = (
-    "Regex-as-data reasoning plus guard analysis of parse_cvss_from_text: the candidate regex (re._parser AST) has no "
-    "capturing group and the shape (optional prefix group)(class){n,}; from the parsers' accepted tables the class "
-    "contains every character of valid v2/v3 vectors, n does not exceed the shortest valid vector/body, every accepted v3 "
-    "prefix is in the group's language and no delimiter absorbed by the group can be followed by the first character of a "
-    "valid vector (no straddling); greedy leftmost matching then returns a delimited vector exactly. Both constructor calls "
-    "receive the raw match inside a try whose handler covers every exception the constructors let out (C04); results are "
-    "de-duplicated on ==."
+    "Two parts. The regex as data (re._parser AST): the pattern the function really searches the text with has no capturing "
+    "group and the shape (optional prefix group)(class){n,m}; from the parsers' accepted tables the class contains every "
+    "character of valid v2/v3 vectors and nothing outside [A-Za-z:/], n does not exceed the shortest and m reaches the longest "
+    "valid vector/body, every accepted v3 prefix is in the group's language and no delimiter absorbed by the group can be "
+    "followed by the first character of a valid vector; greedy leftmost matching then returns a delimited vector exactly. The "
+    "function: parse_cvss_from_text is abstractly interpreted (exceptions as control flow) with the search result replaced by "
+    "K in {0,1,3} symbolic candidates over 21 representative strings and the constructors by the grammar; for every candidate "
+    "sequence the returned collection holds the token of every valid candidate, nothing that is not a valid part of a candidate, "
+    "nothing twice, and no exception leaves the function (sort keys that can be None are found on the object model). That the "
+    "constructors accept exactly the grammar, let out only the classes the handler catches, and that == is the semantic key, is "
+    "discharged here."
 )
 
 
